@@ -278,6 +278,12 @@ class Sim:
                 drv.state = READY
                 drv.reason = "abort"
                 return drv
+            # everything that is due at this instant becomes runnable before a choice is made
+            while self.heap and self.heap[0][0] <= self.now:
+                _when, _seq, token, fn = heapq.heappop(self.heap)
+                if not token[0]:
+                    token[0] = True
+                    fn()
             ready = [t for t in self.threads if t.state == READY and t is not cur]
             if cur is not None and cur.state == READY and not ready:
                 return cur
